@@ -164,12 +164,16 @@ def run_check(prop, tier, seed):
     tie = []
     tie_ok = True
     seeds = [seed] if not thorough else [seed, seed * 7919 + 1, seed * 104729 + 2]
-    for comp, n_quick, size in prop.SCOPE:
+    for entry in prop.SCOPE:
+        comp, n_quick, size = entry[:3]
+        opts = entry[3] if len(entry) > 3 else {}
+        if opts.get("thorough_only") and not thorough:
+            continue
         for sd in seeds:
             n = n_quick * (4 if thorough else 1)
             sz = size * (3 if thorough else 1)
             try:
-                r = corr.run_component(comp, sd, n, sz)
+                r = corr.run_component(comp, sd, n, sz, tz=opts.get("tz"))
             except Exception as e:  # machinery failure, not a verdict
                 print(f"INTERNAL: correspondence {comp} failed: {e!r}", file=sys.stderr)
                 raise
@@ -231,7 +235,7 @@ def run_check(prop, tier, seed):
             what.append({"proof": pl["problems"], "module": prop.LEAN_MODULE})
         if not tie_ok:
             r, d = unexplained_tie[0]
-            lines, meta = corr.regen_case(r["component"], r["seed"], d["case"], r["size"])
+            lines, meta = corr.regen_case(r["base_component"], r["seed"], d["case"], r["size"])
             what.append({"correspondence": r["component"], "seed": r["seed"], "case": d["case"], "meta": d["meta"],
                          "first_difference": d["diff"], "ops": lines})
         path = write_replay(pid, {"property": pid, "kind": "unproved",
